@@ -391,3 +391,59 @@ func verifHosts(l *roundRobinLoadBalancer) []*Host { return l.hosts.Load().([]*H
 //@   ensures failed-handshake-refused: $cnTLS && $cnHandshakeFailed ==> err != nil && c == nil && !$cnCreated && !$cnStarted
 //@   ensures success: err == nil ==> c != nil && $cnCreated && $cnStarted
 //@   modifies *
+
+// ---------------------------------------------------------------------------------------------
+// C08 / C07: connection pools
+// ---------------------------------------------------------------------------------------------
+
+//@ type proxycore.connPool
+//@   immutable: ctx, config, logger, preparedCache, cancel, connsMu
+//@   guarded_by connsMu: conns
+//@ type proxycore.SessionConfig
+//@   immutable: ReconnectPolicy, NumConns, Keyspace, Version, Auth, PreparedCache, ConnectTimeout, HeartBeatInterval, IdleTimeout, Logger, Compression
+//@ type proxycore.connPoolConfig
+//@   immutable: Endpoint
+
+// Every pool - including the pools created later for hosts that join the cluster - carries the
+// session's prepared cache, so that its connections can re-prepare statements.
+//@ func proxycore.connectPoolNoFail [C08]
+//@   ensures result != nil && fresh(result) && result.preparedCache == config.PreparedCache && result.config.Version == config.Version && result.config.Keyspace == config.Keyspace && result.config.Compression == config.Compression
+//@   modifies nothing
+
+//@ func proxycore.ConnectClient [C08]
+//@   trusted
+//@   ensures result1 == nil ==> result0 != nil && fresh(result0) && result0.preparedCache == config.PreparedCache && result0.closingMu != nil && result0.pending != nil && fresh(result0.pending) && result0.conn != nil && result0.codec != nil
+//@   ensures result1 != nil ==> result0 == nil
+//@   modifies nothing
+
+//@ func proxycore.ClientConn.SetKeyspace [C07]
+//@   requires c != nil && c.closingMu != nil && c.pending != nil && c.conn != nil
+//@   modifies *, c.pending.$has, c.pending.$tag, c.pending.$val
+
+//@ func proxycore.ClientConn.Close
+//@   requires c != nil && c.conn != nil
+//@   modifies *
+
+// connPool.connect: a connection enters the pool only after it was created with the pool's prepared
+// cache, completed the handshake in the session's protocol version with the session's compression,
+// and - if the session has a keyspace - successfully switched to it.
+//@ func proxycore.connPool.connect [C07, C08]
+//@   local $ccCache PreparedCache = nil
+//@   local $ccHsVersion primitive.ProtocolVersion = 0
+//@   local $ccHsCompressionOK bool = false
+//@   local $ccHsDone bool = false
+//@   local $ccHsGot primitive.ProtocolVersion = 0
+//@   local $ccKsTried bool = false
+//@   local $ccKs string = ""
+//@   local $ccKsOK bool = false
+//@   requires p != nil
+//@   before proxycore.ConnectClient#1 set $ccCache = arg2.PreparedCache
+//@   before proxycore.ClientConn.Handshake#1 set $ccHsVersion = arg2; $ccHsCompressionOK = ite(p.config.Compression == "", len(arg4) == 0, len(arg4) == 2 && arg4[0] == "COMPRESSION" && arg4[1] == p.config.Compression)
+//@   after proxycore.ClientConn.Handshake#1 set $ccHsDone = (result1 == nil); $ccHsGot = result0
+//@   before proxycore.ClientConn.SetKeyspace#1 set $ccKsTried = true; $ccKs = arg3
+//@   after proxycore.ClientConn.SetKeyspace#1 set $ccKsOK = (result == nil)
+//@   ensures cache: err == nil ==> conn != nil && $ccCache == p.preparedCache
+//@   ensures handshake: err == nil ==> $ccHsDone && $ccHsVersion == p.config.Version && $ccHsGot == p.config.Version && $ccHsCompressionOK
+//@   ensures keyspace: err == nil && p.config.Keyspace != "" ==> $ccKsTried && $ccKsOK && $ccKs == p.config.Keyspace
+//@   ensures failure: err != nil ==> conn == nil
+//@   modifies *
